@@ -282,7 +282,7 @@ func (x *opPath) Do(currentData, originalData any) (dataToUse any, err error) {
 			prevOp := x.Operations[idx-1]
 			if !prevOp.PropagateNull() && op.Type() != OT_Function {
 				// todo: think about what kind of error we should return here
-				return fmt.Errorf("cannot access property of nil value"), nil
+				return nil, fmt.Errorf("cannot access property of nil value")
 			}
 		}
 
